@@ -384,5 +384,5 @@ def groups(tier):
                         stubs=tcs, world="COORD", timeout_s=1800, prove_ms=30000, expect_hits=["ConvexPolygon.area", "Pyramid.volume"]))
     for n in ((3, 4, 5, 6) if tier == "quick" else (3, 4, 5, 6, 7)):  # n = 8: one spurious path (a pair of edge segments "equal") is not refuted within 90 s, so it would stay undecided
         gs.append(Group("ConvexPolygon.length / area[n=%d]" % n, polygon_measure_harness(n), ["Geometry3D.geometry.polygon:ConvexPolygon.length", "Geometry3D.geometry.polygon:ConvexPolygon.area",
-                        "Geometry3D.geometry.polygon:ConvexPolygon.segments"], stubs=cs, world="COORD", timeout_s=1800, prove_ms=30000, expect_hits=["get_triangle_area"]))
+                        "Geometry3D.geometry.polygon:ConvexPolygon.segments"], stubs=cs, world="COORD", timeout_s=1800, prove_ms=60000 if n >= 6 else 30000, feas_ms=3000 if n < 6 else 12000, expect_hits=["get_triangle_area"]))  # (budgets sized for a busy machine: the spurious paths on which two edges "coincide" are refuted by non-linear reasoning)
     return gs
